@@ -30,8 +30,8 @@ Section SendMsg.
   Variable iov : nat.       (* constants.SC_IOV_MAX (> 0 on this path) *)
 
   (* socket.sendmsg(islice(buffers, SC_IOV_MAX)) *)
-  Definition sock_sendmsg (bufs : list bytes) (s : sock) : cbres nat * sock * Z :=
-    sock_send (concat (firstn iov bufs)) s.
+  Definition sock_sendmsg (bufs : list bytes) : sock -> cbres nat * sock * Z :=
+    sock_send (concat (firstn iov bufs)).
 
   Fixpoint sendmsg_loop (fuel : nat) (bufs : list bytes) (T : tmo) (s : sock) (sels : list selans) : sres :=
     match bufs with
